@@ -41,94 +41,113 @@ def is_user_ctx(e, b, cx, crate):
 
 
 def check_checks(cx, chk):
+    """@check on ordinary rules, read off the wrapper summaries (wrapsem.RuleView): every path that returns Ok has seen every
+    check of the rule return true on (a reference to) the very value it returns; a path on which a check returned false returns
+    Err(report_error(<that value's own state>, CheckFunctionFailed{that function})); the user context is passed iff configured."""
+    from . import wrapsem, semspec
+    from .. import sem
+    views = wrapsem.rule_views(cx)
     n_checks = 0
     for inst in cx.instances():
         uc = has_user_context(inst)
-        for p, f in sorted(inst.fns.items()):
-            if "mir" not in f:
+        g = cx.grammar_of(inst)
+        for rule in sorted(inst.rule_fns):
+            v = views.get((inst.name, rule))
+            gr = g.rule(rule) if g is not None else None
+            declared = [c.split("::")[-1] for c in (gr.checks if gr is not None and gr.kind == "rule" else [])]
+            if v is None or v.sm is None:
+                if declared:
+                    chk.violation("C14.check", "%s/%s unsummarised" % (inst.name, rule), "a wrapper with checks could not be summarised: %s" % (v.problem if v else "?"))
                 continue
-            b = cx.body(inst.crate, p)
-            fails = [(i, st) for (i, v, st) in agg_variants(b) if v == "CheckFunctionFailed"]
-            if not fails:
+            has_fail = any(s_[0] == "agg" and s_[2] == "CheckFunctionFailed" for l in v.leaves for ev in l.trace for s_ in walk(ev[0]))
+            if not declared and not has_fail:
                 continue
-            rest = p[len(inst.prefix) + 2:]
-            rule = rest.split("::")[0]
-            check_calls = []
-            for (i, st) in fails:
-                n_checks += 1
-                e = norm(b.expr_rv(st["rv"]))
-                fname = dict(e[3]).get("function_name")
-                tag = "%s/%s check %s" % (inst.name, rule, fname[2] if fname and fname[0] == "const" else "?")
-                probs = []
-                cands = [(ce, v, d) for (ce, v, d) in b.atoms(i) if ce[0] == "call" and v is False]
-                if not cands:
-                    probs.append("failure is not on the false edge of a check call")
-                    for pr in probs:
-                        chk.violation("C14.check", tag + " " + pr[:60], pr, cx.site(b, i))
-                    continue
-                ce, v, d = cands[-1]
-                check_calls.append((ce, d))
-                args = ce[2]
-                a0 = args[0] if args else None
-                if not (a0 is not None and a0[0] == "field" and a0[2] == "result"):
-                    probs.append("check is not called on a reference to the rule value (`&result.result`): %s" % (mir.show(a0) if a0 else "?"))
-                    R = None
-                else:
-                    R = a0[1]
-                if uc:
-                    if not (len(args) == 2 and is_user_ctx(args[1], b, cx, inst.crate)):
-                        probs.append("user context is configured but not passed to the check")
-                elif len(args) != 1:
-                    probs.append("unexpected extra argument to the check function")
-                if fname and fname[0] == "const" and fname[2].split("::")[-1] != last(ce[1]):
-                    probs.append("reported function name %r does not name the called function %s" % (fname[2], short(ce[1])))
-                # the error is reported on the value's own state and returned
-                rep = None
-                for j, t in b.calls():
-                    if last(t["func"]["path"]) == "report_error" and (j == i or b.dominates(i, j)) and len(t["args"]) == 2:
-                        spec = norm(b.expr_op(t["args"][1]))
-                        if spec == e:
-                            rep = (j, t)
-                if rep is None:
-                    probs.append("the check failure is not turned into report_error(..)")
-                else:
-                    j, t = rep
-                    st0 = norm(b.expr_op(t["args"][0]))
-                    if R is not None and st0 != ("field", R, "state"):
-                        probs.append("failure reported on %s, not on the checked value's own state" % mir.show(st0))
-                    # returned as Err
-                    dest = t["dest"]["l"]
-                    retd = [d0 for d0 in b.defs.get(0, []) if d0[2] == "rv" and norm(b.expr_rv(d0[3])) == ("agg", "std::result::Result", "Err", (("0", norm(b.expr_call(t))),))]
-                    if not retd:
-                        # compare loosely
-                        okret = any(d0[2] == "rv" and norm(b.expr_rv(d0[3]))[0] == "agg" and norm(b.expr_rv(d0[3]))[2] == "Err"
-                                    and b.dominates(j, d0[0]) for d0 in b.defs.get(0, []))
-                        if not okret:
-                            probs.append("the check failure is not returned as an ordinary Err")
-                if probs:
-                    for pr in probs:
-                        chk.violation("C14.check", tag + " " + pr.split(":")[0][:70], pr, cx.site(b, i))
-                else:
-                    chk.ok("C14.check", tag, {"rule": "%s/%s" % (inst.name, rule), "call": mir.show(ce), "on_false": "Err(report_error(result.state, CheckFunctionFailed))"})
-            # every Ok return is dominated by the true edge of every check, and returns the checked value
-            for d0 in b.defs.get(0, []):
-                if d0[2] != "rv":
-                    continue
-                e = norm(b.expr_rv(d0[3]))
-                if e[0] == "agg" and e[2] == "Ok":
-                    at = b.atoms(d0[0])
-                    for (ce, d) in check_calls:
-                        if not any(x == ce and v is True for (x, v, dd) in at):
-                            chk.violation("C14.check", "%s/%s Ok-bypasses-check %s" % (inst.name, rule, short(ce[1])),
-                                          "a successful return of parse_%s is not dominated by the success of check %s" % (rule, short(ce[1])),
-                                          cx.site(b, d0[0]))
-                    val = e[3][0][1]
-                    for (ce, d) in check_calls:
-                        if ce[2] and ce[2][0][0] == "field" and ce[2][0][1] != val:
-                            chk.violation("C14.check", "%s/%s checked-value-differs" % (inst.name, rule),
-                                          "the value returned (%s) is not the value the check saw (%s)" % (mir.show(val), mir.show(ce[2][0][1])),
-                                          cx.site(b, d0[0]))
-                    chk.ok("C14.check", "%s/%s Ok path" % (inst.name, rule))
+            if gr is not None and gr.kind != "rule":
+                continue
+            tag0 = "%s/parse_%s" % (inst.name, rule)
+            probs = []
+            for leaf in v.leaves:
+                ues = v.user_events(leaf)
+                calls = [(i, ev) for (i, ev) in ues if last(ev[0][1]) in declared or True]
+                outcomes = []
+                for (i, ev) in calls:
+                    t = ev[0]
+                    tv = leaf.facts.get(t)
+                    if tv is None:
+                        # look for the canonical atom
+                        a_, pol = sem.canon(t)
+                        tv = leaf.facts.get(a_)
+                        tv = (tv == pol) if tv is not None else None
+                    outcomes.append((t, tv, ev))
+                r = leaf.ret
+                if r is not None and r[0] == "agg" and r[2] == "Ok" and r[1] == sem.RESULT:
+                    X = sem.get_field(r, "0")
+                    val = sem.get_field(X, "result")
+                    bes = [bev for (_, bev) in v.body_events(leaf) if semspec.discr_case(leaf, bev[0]) == 0]
+                    if not bes:
+                        continue        # a cache hit: the stored value was checked when it was computed
+                    seen = []
+                    for (t, tv, ev) in outcomes:
+                        nm = last(t[1])
+                        if tv is not True:
+                            probs.append(("Ok-bypasses-check %s" % nm, "a successful return of parse_%s does not depend on the success of check %s" % (rule, nm)))
+                        if not t[2] or t[2][0] != val:
+                            probs.append(("checked-value-differs", "the value returned (%s) is not the value the check saw (%s)" % (mir.show(val)[:80], mir.show(t[2][0])[:80] if t[2] else "?")))
+                        seen.append(nm)
+                    if seen != declared:
+                        probs.append(("checks-run %s" % "+".join(seen), "a successful path runs the checks %s, the rule declares %s" % (seen, declared)))
+                if leaf.kind == "loopback" and any(tv is False for (t, tv, ev) in outcomes):
+                    probs.append(("loop-continues", "a growth loop continues after a failed check"))
+                for (t, tv, ev) in outcomes:
+                    nm = last(t[1])
+                    args = t[2]
+                    if uc:
+                        if not (len(args) == 2 and args[1][0] == "field" and args[1][2] == "user_context" and args[1][1] == mir.mk("param", 2)):
+                            probs.append(("check %s user-context" % nm, "user context is configured but not passed to the check"))
+                    elif len(args) != 1:
+                        probs.append(("check %s extra-argument" % nm, "unexpected extra argument to the check function"))
+                    if tv is False:
+                        n_checks += 1
+                        good = False
+                        # the failure value: Err(report_error(state, CheckFunctionFailed{..})) built after the check; it is what the
+                        # path returns - or, in a left-recursive wrapper, what the growth step ends with (best result returned instead)
+                        reps = [ev2[0] for ev2 in leaf.trace if is_call(ev2[0], "report_error") and len(ev2[0][2]) == 2
+                                and ev2[0][2][1][0] == "agg" and ev2[0][2][1][2] == "CheckFunctionFailed"
+                                and dict(ev2[0][2][1][3]).get("function_name", ("?", "?", ""))[2:3] and str(dict(ev2[0][2][1][3])["function_name"][2]).split("::")[-1] == nm]
+                        rr = None
+                        if r is not None and r[0] == "agg" and r[2] == "Err" and is_call(r[3][0][1], "report_error"):
+                            rr = r[3][0][1]
+                        elif r is not None and r[0] == "loopvar" and reps:
+                            rr = reps[-1]
+                        if rr is not None and len(rr[2]) == 2:
+                            st0, spec = rr[2]
+                            fn_ = dict(spec[3]).get("function_name") if spec[0] == "agg" and spec[2] == "CheckFunctionFailed" else None
+                            if fn_ is None:
+                                probs.append(("check %s failure-kind" % nm, "a failed check is reported as %s" % mir.show(spec)[:80]))
+                            else:
+                                if fn_[0] == "const" and str(fn_[2]).split("::")[-1] != nm:
+                                    probs.append(("check %s name" % nm, "reported function name %r does not name the called function %s" % (fn_[2], nm)))
+                                # the state: that of the value the check saw
+                                want = None
+                                for (R_, X_) in [pr for l2 in v.leaves for pr in v.mapped(l2)] :
+                                    if args and sem.get_field(X_, "result") == args[0]:
+                                        want = sem.get_field(X_, "state")
+                                if want is None:
+                                    a0 = args[0] if args else None
+                                    # the checked value need not reach an Ok elsewhere: its state is the body's end state on this path
+                                    bes = [bev for (_, bev) in v.body_events(leaf) if semspec.discr_case(leaf, bev[0]) == 0]
+                                    if bes:
+                                        want = mir.mk("field", mir.mk("field", mir.mk("downcast", bes[-1][0], "Ok"), "0"), "state")
+                                if want is None or st0 != want:
+                                    probs.append(("check %s state" % nm, "failure reported on %s, not on the checked value's own state" % mir.show(st0)[:80]))
+                                good = True
+                        if not good and not any(p_[0].startswith("check %s" % nm) for p_ in probs):
+                            probs.append(("check %s not-an-error" % nm, "the check failure is not returned as Err(report_error(.., CheckFunctionFailed)): %s" % (mir.show(r)[:100] if r is not None else "?")))
+            if probs:
+                for (k, pr) in sorted(set(probs)):
+                    chk.violation("C14.check", "%s %s" % (tag0, k[:70]), pr, cx.site(v.body))
+            else:
+                chk.ok("C14.check", tag0, {"rule": "%s/%s" % (inst.name, rule), "checks": declared, "on_false": "Err(report_error(result.state, CheckFunctionFailed))"})
     chk.floor("C14.check", "check failure sites", n_checks, 3)
 
 
